@@ -58,6 +58,24 @@ UNHANDLED_GIT = ("enoent", "eacces", "badbytes")
 FARM_PREFIX = ".farm-target/"
 
 
+_ALIAS = {}
+
+
+def repo_alias(repo):
+    """A second name for the repository: a real symbolic link (in a scratch directory of this
+    worker) pointing at it.  Used when the plan says the tool is started through a symlinked path."""
+    if repo not in _ALIAS:
+        import atexit
+        import tempfile
+
+        d = tempfile.mkdtemp(prefix="au-verif-alias-")
+        link = os.path.join(d, "checkout-link")
+        os.symlink(repo, link)
+        atexit.register(shutil.rmtree, d, True)
+        _ALIAS[repo] = link
+    return _ALIAS[repo]
+
+
 class StepBudgetExceeded(BaseException):
     pass
 
@@ -625,6 +643,7 @@ class Sim:
         self.repo = os.path.realpath(_tree.REPO)
         self.tool = os.path.realpath(_tree.tool_path())
         self.tool_norm = os.path.normpath(os.path.join(self.repo, _tree.TOOL_REL))
+        self.alias = repo_alias(self.repo) if plan["env"].get("invoked_via_symlink") else None
         self.step_budget = step_budget
         self.event_cap = event_cap
         self.events = []
@@ -701,6 +720,8 @@ class Sim:
         if isinstance(p, bytes):
             p = os.fsdecode(p)
         ap = os.path.normpath(os.path.join(self.cwd, p))
+        if self.alias and (ap == self.alias or ap.startswith(self.alias + os.sep)):
+            ap = self.repo + ap[len(self.alias):]  # the same tree under its other name
         if ap == self.repo:
             return "."
         if not ap.startswith(self.repo + os.sep):
@@ -749,6 +770,8 @@ class Sim:
         if isinstance(p, bytes):
             p = os.fsdecode(p)
         ap = os.path.normpath(os.path.join(self.cwd, p))
+        if self.alias and ap.startswith(self.alias + os.sep):
+            ap = self.repo + ap[len(self.alias):]
         marker = self.repo + os.sep + FARM_PREFIX
         if ap.startswith(marker):
             return self.repo + os.sep + ap[len(marker):], True
@@ -1248,7 +1271,9 @@ class Sim:
         self.real_datetime = _TRUE["datetime"]
         self.real_popen = _TRUE["Popen"]
         self.cwd = self.repo
-        self.tool_filename = _tree.tool_path()
+        # the path the tool is started by: normally <repo>/tools/bin/..., or the same through a
+        # symbolic link somewhere above it (automounted homes, CI workspace links, ~/src -> /data/src)
+        self.tool_filename = os.path.join(self.alias, _tree.TOOL_REL) if self.alias else _tree.tool_path()
 
         sim = self
 
